@@ -25,6 +25,10 @@ func (Labeler) After(x *Exec, op *Op, res *Res) {
 			x.AmpSeen = map[string]*big.Rat{}
 		}
 		if cur := x.AmpSeen[dn]; cur == nil || amp.Cmp(cur) > 0 {
+			million := big.NewRat(1_000_000, 1)
+			if amp.Cmp(million) >= 0 && (cur == nil || cur.Cmp(million) < 0) {
+				x.Label("precision-collapsed:amplification>=1e6")
+			}
 			x.AmpSeen[dn] = amp
 		}
 		if degenerateAsset(post, dn) {
